@@ -4,6 +4,28 @@
 pub assume_specification<T> [Option::<T>::or] (a: Option<T>, b: Option<T>) -> (r: Option<T>)
     ensures r == (match a { Some(x) => Some(x), None => b });
 
+pub assume_specification<T, E> [Option::<Result<T, E>>::transpose] (o: Option<Result<T, E>>) -> (r: Result<Option<T>, E>)
+    ensures r == (match o { None => Ok(None), Some(Ok(x)) => Ok(Some(x)), Some(Err(e)) => Err(e) });
+
+// Option / Result combinators vstd does not cover (closure results through call_ensures)
+pub assume_specification<T, F: FnOnce(T) -> bool> [Option::<T>::is_some_and] (o: Option<T>, f: F) -> (r: bool)
+    requires o is Some ==> f.requires((o->Some_0,))
+    ensures match o { None => !r, Some(x) => f.ensures((x,), r) };
+pub assume_specification<T, F: FnOnce(T) -> bool> [Option::<T>::is_none_or] (o: Option<T>, f: F) -> (r: bool)
+    requires o is Some ==> f.requires((o->Some_0,))
+    ensures match o { None => r, Some(x) => f.ensures((x,), r) };
+pub assume_specification<T, P: FnOnce(&T) -> bool> [Option::<T>::filter] (o: Option<T>, p: P) -> (r: Option<T>)
+    requires o is Some ==> p.requires((&o->Some_0,))
+    ensures match o { None => r is None, Some(x) => exists|b: bool| p.ensures((&x,), b) && r == (if b { Some(x) } else { None::<T> }) };
+pub assume_specification<T, E, U, F: FnOnce(T) -> Result<U, E>> [Result::<T, E>::and_then] (o: Result<T, E>, f: F) -> (r: Result<U, E>)
+    requires o is Ok ==> f.requires((o->Ok_0,))
+    ensures match o { Ok(x) => f.ensures((x,), r), Err(e) => r == Err::<U, E>(e) };
+pub assume_specification<T, E, G, F: FnOnce(E) -> Result<T, G>> [Result::<T, E>::or_else] (o: Result<T, E>, f: F) -> (r: Result<T, G>)
+    requires o is Err ==> f.requires((o->Err_0,))
+    ensures match o { Ok(x) => r == Ok::<T, G>(x), Err(e) => f.ensures((e,), r) };
+pub assume_specification<T, E, F> [Result::<T, E>::or] (a: Result<T, E>, b: Result<T, F>) -> (r: Result<T, F>)
+    ensures r == (match a { Ok(x) => Ok(x), Err(_) => b });
+
 // strings as values: str_of is the inverse of the view (a string is determined by its characters)   TRUSTED
 pub uninterp spec fn str_of(s: Seq<char>) -> String;
 pub broadcast axiom fn axiom_str_canon(v: String)
